@@ -122,6 +122,29 @@ def check_vector(v):
             return [[int(x) for x in np.asarray(r.to_array() if hasattr(r, "to_array") else r).tolist()] for r in bnp.compute(lazy[intervals])]
         cmp("streamed track[intervals]", v["under"], lambda: streamed(giu))
         cmp("streamed track[stranded intervals]", v["understr"], lambda: streamed(gi))
+    # the same entries and the same track read from FILES through the genome (read_intervals / read_track), in memory and as streams
+    bed = os.path.join(v["_dir"], "e_%d.bed" % os.getpid())
+    bdg = os.path.join(v["_dir"], "t_%d.bdg" % os.getpid())
+    with open(bed, "w") as fh:
+        for i, e in enumerate(es):
+            fh.write("%s\t%d\t%d\tx%d\t0\t%s\n" % (names[e["c"] - 1], e["s"], e["e"], i, e["st"]))
+    with open(bdg, "w") as fh:
+        for c_, s_, e_, v_ in zip(ch, st, en, val):
+            fh.write("%s\t%d\t%d\t%d\n" % (c_, s_, e_, v_))
+    cmp("read_intervals.get_pileup", v["pileup"], lambda: dense(g.read_intervals(bed).get_pileup()))
+    cmp("read_intervals(stranded).get_mask", v["mask"], lambda: dense(g.read_intervals(bed, stranded=True).get_mask(), True))
+    cmp("read_track[read_intervals(stranded)]", v["understr"], lambda: vals(g.read_track(bdg)[g.read_intervals(bed, stranded=True)]))
+    cmp("read_track dense", [[10 * (c + 1) + p for p in range(size)] for c, size in enumerate(G)], lambda: dense(g.read_track(bdg)))
+    if all(a["c"] <= b["c"] for a, b in zip(es, es[1:])):
+        def streamed_files():
+            pile = bnp.compute(g.read_intervals(bed, stream=True).get_pileup().get_data())
+            cov = [[0] * size for size in G]
+            for c_, a_, b_, x_ in zip(pile.chromosome.tolist(), pile.start.tolist(), pile.stop.tolist(), pile.value.tolist()):
+                for p in range(int(a_), int(b_)):
+                    cov[names.index(c_)][p] = int(x_)
+            tot = int(bnp.compute(g.read_track(bdg, stream=True).sum()))
+            return cov, tot
+        cmp("read_intervals(stream).get_pileup / read_track(stream).sum", (v["pileup"], sum(val)), streamed_files)
     # sequence under the intervals, reverse-complemented on the minus strand
     fa = os.path.join(v["_dir"], "g%s_%d.fa" % ("".join(str(x) for x in G), os.getpid()))
     if not os.path.exists(fa):
